@@ -1,4 +1,4 @@
 SPECIFICATION Spec
-CONSTANTS Readers = {1} Writers = {2} Rounds = 1 Grace = 2 MaxT = 3 AllowShutdown = FALSE AllowParentCancel = FALSE GraceFromAdmission = TRUE ErrButAdmitted = FALSE DeleteOnEveryRelease = FALSE AutoReleaseOnCtxEnd = FALSE CancelAfterDone = FALSE
+CONSTANTS Readers = {1} Writers = {2} Rounds = 1 Grace = 2 MaxT = 3 AllowShutdown = FALSE AllowParentCancel = FALSE GraceFromAdmission = TRUE ErrButAdmitted = FALSE DeleteOnEveryRelease = FALSE AutoReleaseOnCtxEnd = FALSE CancelAfterDone = FALSE NoCtxOnSend = FALSE
 INVARIANTS Contract
 CHECK_DEADLOCK FALSE
